@@ -451,7 +451,11 @@ func (n *node) AddChildren(ch ...Node) {
 
 func (n *node) AddWhenChildren(fromAugment bool, ch ...Node) {
 	for _, child := range ch {
-		child.(*node).fromAugment = fromAugment
+		// A when that an augment contributed stays one when a uses
+		// inside that augment hands it on to the nodes it introduces.
+		if fromAugment {
+			child.(*node).fromAugment = true
+		}
 	}
 	n.children = append(n.children, ch...)
 }
